@@ -868,7 +868,7 @@ def run_shard(tier, seed, shard, nshards, res):
             rng = common.rng_for(seed, 'c05a', shard, i)
             variant = 'lru' if i % 5 == 4 else 'expired' if i % 5 == 2 else 'rollbacks' if i % 5 == 3 else 'lines' if i % 5 == 1 else 'plain'
             mode_a(dc, sc, res, rng, tier, 'c05 A seed=%d shard=%d i=%d' % (seed, shard, i), variant)
-            if res.counters.get('violations_raw', 0) > 5:
+            if res.new_violations() > 5:
                 return
         # mode D: programs are taken in rotation from all (2 calls | 1 call) combinations of the pool, so that repeated
         # runs (other seeds, the thorough tier) walk through all of them
@@ -891,7 +891,7 @@ def run_shard(tier, seed, shard, nshards, res):
             prog = [[SHARED_OPS[a], SHARED_OPS[b]], [SHARED_OPS[c]]]
             shared_object_plans(dc, sc, res, rng, 'c05 D seed=%d shard=%d i=%d' % (seed, shard, i), prog, init,
                                 budget=budget, part=part, gates=True if tier == 'quick' else 'with entries')
-            if res.counters.get('violations_raw', 0) > 5:
+            if res.new_violations() > 5:
                 return
         probe.reset()
         n_b = 2 if tier == 'quick' else 12
